@@ -170,8 +170,23 @@ def measure(case):
 def handler(case):
     import logging
     out = {}
-    out["observed"] = in_fresh_tree(case["tree"], lambda: run_main(case["argv"]))
+    # the tree the judged invocation sees: earlier runs' outputs are NOT part of it for the reference
+    final_tree = case["tree"]
+    if case.get("delete"):
+        final_tree = dict(case["tree"])
+        final_tree["files"] = {k: v for k, v in case["tree"]["files"].items() if k not in case["delete"]}
+
+    def seq():
+        pre = []
+        for argv in case.get("pre", []):        # earlier invocations sharing the directory tree (-o dir)
+            pre.append(run_main(argv))
+        for rel in case.get("delete", []):
+            os.remove(rel)
+        return pre, run_main(case["argv"])
+    out["pre_observed"], out["observed"] = in_fresh_tree(case["tree"], seq)
     logging.getLogger("pymoca").setLevel(logging.WARNING)
+    case = dict(case)
+    case["tree"] = final_tree
 
     def ref():
         facts, files, reach = measure(case)
